@@ -219,7 +219,10 @@ def has_collision(tree, gid):
 SCALES = [(Fraction(3), "* au::mag<3>()"), (Fraction(1, 7), "/ au::mag<7>()"), (Fraction(1000), "* au::mag<1000>()"),
           (Fraction(5, 9), "* au::mag<5>() / au::mag<9>()"), (Fraction(2 ** 31 - 1), "* au::mag<2147483647>()"),
           (Fraction(547 * 557), "* au::mag<304679>()"), (Fraction(1, 1009 * 1013), "/ au::mag<1022117>()"),
-          (Fraction(1000003 * 1000033, 7), "* au::mag<1000036000099ULL>() / au::mag<7>()")]
+          (Fraction(1000003 * 1000033, 7), "* au::mag<1000036000099ULL>() / au::mag<7>()"),
+          # rational factors one of whose parts does not fit 64 bits (that part is unlabeled, the other is not)
+          (Fraction(1, 10 ** 24), "/ au::pow<24>(au::mag<10>())"), (Fraction(10 ** 24, 7), "* au::pow<24>(au::mag<10>()) / au::mag<7>()"),
+          (Fraction(5, 7 ** 23), "* au::mag<5>() / au::pow<23>(au::mag<7>())")]
 
 
 ONES = ["* au::mag<1>()", "/ au::mag<1>()", "* (au::mag<6>() / au::mag<6>())", "* au::pow<0>(au::mag<10>())",
@@ -227,7 +230,9 @@ ONES = ["* au::mag<1>()", "/ au::mag<1>()", "* (au::mag<6>() / au::mag<6>())", "
 RECIP = {Fraction(3): "/ au::mag<3>()", Fraction(1, 7): "* au::mag<7>()", Fraction(1000): "/ au::mag<1000>()",
          Fraction(5, 9): "* au::mag<9>() / au::mag<5>()", Fraction(2 ** 31 - 1): "/ au::mag<2147483647>()",
          Fraction(547 * 557): "/ au::mag<304679>()", Fraction(1, 1009 * 1013): "* au::mag<1022117>()",
-         Fraction(1000003 * 1000033, 7): "* au::mag<7>() / au::mag<1000036000099ULL>()"}
+         Fraction(1000003 * 1000033, 7): "* au::mag<7>() / au::mag<1000036000099ULL>()",
+         Fraction(1, 10 ** 24): "* au::pow<24>(au::mag<10>())", Fraction(10 ** 24, 7): "* au::mag<7>() / au::pow<24>(au::mag<10>())",
+         Fraction(5, 7 ** 23): "* au::pow<23>(au::mag<7>()) / au::mag<5>()"}
 
 
 def random_tree(rnd, units, prefixes, depth, allow=("mul", "div", "pow", "root", "scale", "prefix")):
